@@ -94,7 +94,9 @@ def parse_proxy_headers(
                 # include a port number.
 
                 if "." not in forward_hop and (
-                    ":" in forward_hop and forward_hop[-1] != "]"
+                    ":" in forward_hop
+                    and forward_hop[-1] != "]"
+                    and forward_hop[0] != "["
                 ):
                     forwarded_for.append(f"[{forward_hop}]")
                 else:
